@@ -1,0 +1,50 @@
+//go:build verif
+
+package xixi_kv
+
+import (
+	"github.com/XiXi-2024/xixi-kv/datafile"
+	"github.com/bwmarrin/snowflake"
+)
+
+// Accessors for the verification harness (build tag verif only).
+
+const VerifMaxFinRecord = maxFinRecord
+
+// VerifBatchID returns the id the batch tags its records with.
+func (b *Batch) VerifBatchID() uint64 { return uint64(b.batchID) }
+
+// VerifSetBatchID overrides the id of a batch (to make runs reproducible and to
+// exercise id reuse).
+func (b *Batch) VerifSetBatchID(id uint64) { b.batchID = snowflake.ID(id) }
+
+// VerifActive returns id and logical size of the active file (0,-1 when none).
+func (db *DB) VerifActive() (uint32, int64) {
+	if db.activeFile == nil {
+		return 0, -1
+	}
+	return db.activeFile.ID, db.activeFile.Size()
+}
+
+// VerifActiveFile returns the active data file.
+func (db *DB) VerifActiveFile() *datafile.DataFile { return db.activeFile }
+
+// VerifOlderIDs returns the ids of the older (read-only) files.
+func (db *DB) VerifOlderIDs() []uint32 {
+	ids := make([]uint32, 0, len(db.olderFiles))
+	for id := range db.olderFiles {
+		ids = append(ids, id)
+	}
+	return ids
+}
+
+// VerifPos returns the index entry of a key (nil when absent).
+func (db *DB) VerifPos(key []byte) *datafile.DataPos { return db.index.Get(key) }
+
+// VerifCounters returns (reclaimSize, totalSize, bytesWrite).
+func (db *DB) VerifCounters() (int64, int64, uint) {
+	return db.reclaimSize, db.totalSize, db.bytesWrite
+}
+
+// VerifMergePath returns the merge directory of this database.
+func (db *DB) VerifMergePath() string { return db.mergePath() }
